@@ -7,6 +7,8 @@ UmGen/MetaConsts.lean:
     `epoch <= installed && !force` (`true`) or `epoch < installed && !force` (`false`);
   * `setMetaMapFirst` — `self.meta_map.store(..)` precedes `self.epoch.store(..)` in `set_meta`;
   * `setMetaHostCheckBeforeLock` — `check_hosts` precedes `self.lock.lock()`;
+  * `switchReadsEpochFirst` — `handle_switch`, the only function that reads both shared cells, loads
+    `epoch` before `meta_map`;
   * `replLoadRejectsEqual` / `replLockRejectsEqual` — the two epoch tests of
     `ReplicatorManager::update_replicators` (`updating_epoch.load() >= epoch`, `epoch <= replicators.0`);
   * `replPoints` — the names of the scheduling points in `update_replicators`, in program order
@@ -84,6 +86,24 @@ def gen_metaconsts():
     out.append(f"/-- `self.meta_map.store(..)` comes before `self.epoch.store(..)` -/")
     out.append(f"def setMetaMapFirst : Bool := {'true' if i_map < i_ep else 'false'}  -- {p}")
     out.append(f"def setMetaHostCheckBeforeLock : Bool := {'true' if i_chk < i_lock else 'false'}  -- {p}")
+    # the only reader of both shared cells: handle_switch loads the epoch first, the snapshot afterwards
+    hb = _squash(fn_body(t, "handle_switch", p))
+    j_ep = hb.find("self.epoch.load(Ordering::SeqCst)")
+    j_map = hb.find("self.meta_map.load()")
+    if j_ep < 0 or j_map < 0 or hb.count("self.epoch.load(") != 1 or hb.count("self.meta_map.load()") != 1:
+        raise ExtractError(f"{p}: handle_switch: epoch / meta_map loads not found exactly once")
+    out.append(f"/-- `handle_switch` loads `epoch` before `meta_map` -/")
+    out.append(f"def switchReadsEpochFirst : Bool := {'true' if j_ep < j_map else 'false'}  -- {p}")
+    # no other function reads both cells
+    for fn in re.findall(r"\bfn\s+(\w+)", t):
+        if fn in ("set_meta", "handle_switch", "new"):
+            continue
+        try:
+            fb = fn_body(t, fn, p)
+        except ExtractError:
+            continue
+        if "self.epoch.load(" in fb and "meta_map.load()" in fb:
+            raise ExtractError(f"{p}: fn {fn} reads both epoch and meta_map: a reader the skew lemma does not know")
 
     # --- NodeMap::check_hosts, extract_host_from_address ----------------------------------------
     p = "src/common/proto.rs"
